@@ -24,6 +24,8 @@ def genTables : Tables :=
     sdlEmptyTokenSpins := Gen.sdlEmptyTokenSpins,
     exeVarTypeOptional := Gen.exeVarTypeOptional,
     opFallbackAnyName := Gen.opFallbackAnyName,
+    nullVarUsesDefault := Gen.nullVarUsesDefault,
+    listNotCoerced := Gen.listNotCoerced, symbolUnchecked := Gen.symbolUnchecked,
     fieldPosAfterLookahead := Gen.fieldPosAfterLookahead,
     opErrPosAfterLookahead := Gen.opErrPosAfterLookahead,
     leafErrNulls := Gen.leafErrNulls, fastSliceCopies := Gen.fastSliceCopies }
